@@ -1,26 +1,842 @@
 package fakecluster
 
+// The SASL server of the fake cluster.
+//
+// A connection of a cluster with a SASLConfig walks through the states
+//
+//	none -> handshaken -> in-progress -> authenticated
+//	                 \________\________-> failed
+//
+// SaslHandshake v0 switches the connection to raw mode: the following frames
+// are length-prefixed opaque tokens answered by length-prefixed opaque tokens;
+// SaslHandshake v1 keeps Kafka framing and the tokens travel inside
+// SaslAuthenticate requests. PLAIN is checked byte-exactly against Users;
+// SCRAM-SHA-256/512 run xdg-go/scram's *server* conversation over credentials
+// that are derived here (own PBKDF2, no code shared with the client side).
+//
+// Failures are signalled the way brokers do it: error code 33 for an unknown
+// mechanism, 58 / 34 inside SaslAuthenticate responses in framed mode, and by
+// closing the connection in raw mode. "Closing" is done as a half close when
+// Linger is set: the client sees EOF, but the server keeps reading, so
+// whatever the client still sends after the failure is observed and journaled
+// (API == APILinger).
+//
+// Every step can be sabotaged through SASLConfig.Fault.
+
 import (
+	"bytes"
+	"crypto/hmac"
+	"crypto/sha256"
+	"crypto/sha512"
+	"encoding/binary"
+	"errors"
+	"fmt"
+	"hash"
+	"strings"
+	"sync"
+	"time"
+
+	"github.com/xdg-go/scram"
+
+	"verifharness/core"
 	"verifharness/fakenet"
+	"verifharness/refcodec"
+)
+
+const (
+	// APIRawToken marks journal events of raw (handshake v0) SASL tokens.
+	APIRawToken = -1
+	// APILinger marks journal events of bytes received after the server ended
+	// its side of the connection (only with SASLConfig.Linger).
+	APILinger = -2
+)
+
+const (
+	AuthNone          = "none"
+	AuthHandshaken    = "handshaken"
+	AuthInProgress    = "in-progress"
+	AuthAuthenticated = "authenticated"
+	AuthFailed        = "failed"
 )
 
 // SASLConfig enables the SASL gate on every broker connection.
 type SASLConfig struct {
+	// Mechanisms enabled on the brokers (nil = PLAIN, SCRAM-SHA-256, SCRAM-SHA-512).
 	Mechanisms []string
-	// Users maps user name to password.
+	// Users maps user name to password, both in their stored (normalised)
+	// form: PLAIN compares byte-exactly; the SCRAM credential lookup
+	// un-escapes the name received (=2C, =3D) and looks it up byte-exactly,
+	// and the stored keys are derived from the password bytes as given.
 	Users map[string]string
-	// ScramIterations for SCRAM credentials derived from Users.
+	// ScramIterations for SCRAM credentials derived from Users (0 = 4096, the
+	// minimum xdg-go/scram clients accept).
 	ScramIterations int
+	// Salt returns the salt of a user (nil = derived from the name).
+	Salt func(user string) []byte
+	// Linger: when the server ends a connection during or because of the SASL
+	// exchange it only half-closes it (EOF towards the client) and keeps
+	// reading until the client closes, journaling what arrives.
+	Linger bool
+	// LingerMax bounds a linger (0 = 30s).
+	LingerMax time.Duration
+	// Fault, when set, is consulted for every step of every exchange after
+	// the reference verdict and reply have been computed.
+	Fault func(*SASLStep) *SASLFault
+	// RawScript is the simple hook for raw tokens: consulted before Fault for
+	// raw-mode steps; a non-nil reply replaces the reference reply,
+	// closeConn ends the connection without a reply. Both zero = no fault.
+	RawScript func(step int, token []byte) (reply []byte, closeConn bool)
+
+	mu    sync.Mutex
+	conns map[int64]*SASLConnInfo
+	order []int64
+	creds map[string]scram.StoredCredentials
 }
 
-type scramServer struct {
-	conv any
+// SASLStep describes one step of an exchange to the fault hook.
+type SASLStep struct {
+	ConnID int64
+	// Ordinal is the 1-based rank of the connection among the connections
+	// that started a SASL exchange on this cluster.
+	Ordinal int
+	Broker  int32
+	Mech    string
+	HsVer   int
+	Raw     bool
+	// Index: 0 = SaslHandshake, 1.. = authentication tokens.
+	Index int
+	Token []byte
+	// Reply is the reference server's reply token (nil for the handshake and
+	// for rejected steps); OK its verdict on this step; Final: the exchange
+	// is complete (and accepted) after this step.
+	Reply []byte
+	OK    bool
+	Final bool
 }
 
-func (c *Cluster) saslRaw(b *Broker, s *fakenet.Conn, st *connState, payload []byte) bool {
+// SASLFault is what the hook wants done instead of the reference behaviour.
+type SASLFault struct {
+	// Kind: "close" (read the step, answer nothing, end the connection),
+	// "cut" (answer, but only CutAt bytes of the reply frame, then CutMode),
+	// "error" (answer with Code: handshake or framed SaslAuthenticate; in raw
+	// mode the same as "close"), "token" (answer successfully, but with Token
+	// instead of the reference reply), "rawbytes" (raw mode only: write Token
+	// verbatim, without a length prefix, where the reply frame would go).
+	Kind    string
+	Code    int16
+	CutAt   int
+	CutMode fakenet.CutMode
+	Token   []byte
+	// KeepBytes: with Kind "error", still carry the reference reply token.
+	KeepBytes bool
+	// Accept: with Kind "rawbytes", the server keeps its reference verdict and
+	// state (the step is not failed); only the bytes on the wire change.
+	Accept bool
+	// Label names the fault in SASLConnInfo.FailKind.
+	Label string
+}
+
+// SASLConnInfo is the server-side record of one connection's exchange.
+type SASLConnInfo struct {
+	ConnID  int64
+	Ordinal int
+	Broker  int32
+	Conn    *fakenet.Conn
+	Mech    string
+	HsVer   int
+	Raw     bool
+	State   string
+	User    string
+	// Steps counts the steps received (handshake included).
+	Steps           int
+	AuthenticatedAt int64
+	// FailedAt is the logical time at which the server decided the failure
+	// (before any byte of the failing answer was written); the client is
+	// waiting for that answer, so anything it writes later was sent after
+	// the failure.
+	FailedAt int64
+	FailKind string
+	FailStep int
+	Injected bool
+	// LingerBytes counts bytes received after the server ended its side.
+	LingerBytes int64
+}
+
+func (cfg *SASLConfig) info(b *Broker, s *fakenet.Conn) *SASLConnInfo {
+	cfg.mu.Lock()
+	defer cfg.mu.Unlock()
+	if cfg.conns == nil {
+		cfg.conns = map[int64]*SASLConnInfo{}
+	}
+	ci := cfg.conns[s.ID]
+	if ci == nil {
+		ci = &SASLConnInfo{ConnID: s.ID, Broker: b.ID, Conn: s, State: AuthNone, Ordinal: len(cfg.order) + 1}
+		cfg.conns[s.ID] = ci
+		cfg.order = append(cfg.order, s.ID)
+	}
+	return ci
+}
+
+// Conns returns copies of the per-connection records, in order of first SASL activity.
+func (cfg *SASLConfig) Conns() []SASLConnInfo {
+	cfg.mu.Lock()
+	defer cfg.mu.Unlock()
+	out := make([]SASLConnInfo, 0, len(cfg.order))
+	for _, id := range cfg.order {
+		out = append(out, *cfg.conns[id])
+	}
+	return out
+}
+
+func (cfg *SASLConfig) update(ci *SASLConnInfo, f func(*SASLConnInfo)) {
+	cfg.mu.Lock()
+	f(ci)
+	cfg.mu.Unlock()
+}
+
+func (cfg *SASLConfig) mechanisms() []string {
+	if cfg.Mechanisms != nil {
+		return cfg.Mechanisms
+	}
+	return []string{"PLAIN", "SCRAM-SHA-256", "SCRAM-SHA-512"}
+}
+
+func (cfg *SASLConfig) enabled(m string) bool {
+	for _, x := range cfg.mechanisms() {
+		if x == m {
+			return true
+		}
+	}
 	return false
 }
 
+// ---------------------------------------------------------------- SCRAM
+
+type scramServer struct {
+	conv *scram.ServerConversation
+	user string
+}
+
+func scramHash(mech string) (func() hash.Hash, scram.HashGeneratorFcn) {
+	if mech == "SCRAM-SHA-512" {
+		return sha512.New, scram.SHA512
+	}
+	return sha256.New, scram.SHA256
+}
+
+// hi is PBKDF2 with HMAC as PRF and one output block (RFC 5802 "Hi").
+func hi(h func() hash.Hash, password, salt []byte, iters int) []byte {
+	mac := hmac.New(h, password)
+	mac.Write(salt)
+	mac.Write([]byte{0, 0, 0, 1})
+	u := mac.Sum(nil)
+	out := append([]byte(nil), u...)
+	for i := 1; i < iters; i++ {
+		mac.Reset()
+		mac.Write(u)
+		u = mac.Sum(u[:0])
+		for j := range out {
+			out[j] ^= u[j]
+		}
+	}
+	return out
+}
+
+// ScramUnescape strictly reverses the saslname escaping of RFC 5802.
+func ScramUnescape(s string) (string, error) {
+	var sb strings.Builder
+	for i := 0; i < len(s); i++ {
+		switch {
+		case s[i] == ',':
+			return "", errors.New("unescaped ',' in saslname")
+		case s[i] != '=':
+			sb.WriteByte(s[i])
+		case strings.HasPrefix(s[i:], "=2C"):
+			sb.WriteByte(',')
+			i += 2
+		case strings.HasPrefix(s[i:], "=3D"):
+			sb.WriteByte('=')
+			i += 2
+		default:
+			return "", errors.New("invalid '=' escape in saslname")
+		}
+	}
+	return sb.String(), nil
+}
+
+func (cfg *SASLConfig) storedCredentials(mech, user string) (scram.StoredCredentials, error) {
+	pass, ok := cfg.Users[user]
+	if !ok {
+		return scram.StoredCredentials{}, fmt.Errorf("unknown user %q", user)
+	}
+	cfg.mu.Lock()
+	defer cfg.mu.Unlock()
+	key := mech + "\x00" + user
+	if sc, ok := cfg.creds[key]; ok {
+		return sc, nil
+	}
+	iters := cfg.ScramIterations
+	if iters <= 0 {
+		iters = 4096
+	}
+	var salt []byte
+	if cfg.Salt != nil {
+		salt = cfg.Salt(user)
+	} else {
+		sum := sha256.Sum256([]byte("salt:" + user))
+		salt = sum[:16]
+	}
+	h, _ := scramHash(mech)
+	salted := hi(h, []byte(pass), salt, iters)
+	mac := func(key []byte, msg string) []byte {
+		m := hmac.New(h, key)
+		m.Write([]byte(msg))
+		return m.Sum(nil)
+	}
+	clientKey := mac(salted, "Client Key")
+	hh := h()
+	hh.Write(clientKey)
+	sc := scram.StoredCredentials{KeyFactors: scram.KeyFactors{Salt: string(salt), Iters: iters},
+		StoredKey: hh.Sum(nil), ServerKey: mac(salted, "Server Key")}
+	if cfg.creds == nil {
+		cfg.creds = map[string]scram.StoredCredentials{}
+	}
+	cfg.creds[key] = sc
+	return sc, nil
+}
+
+func (cfg *SASLConfig) newScram(mech string, st *connState) {
+	_, gen := scramHash(mech)
+	srv, _ := gen.NewServer(func(name string) (scram.StoredCredentials, error) {
+		user, err := ScramUnescape(name)
+		if err != nil {
+			return scram.StoredCredentials{}, err
+		}
+		st.scram.user = user
+		return cfg.storedCredentials(mech, user)
+	})
+	st.scram.conv = srv.NewConversation()
+}
+
+// ---------------------------------------------------------------- reference verdicts
+
+// refToken runs one authentication token through the reference server.
+// It returns the reply token, whether the step is accepted and whether the
+// exchange is complete.
+func (cfg *SASLConfig) refToken(st *connState, idx int, token []byte) (reply []byte, ok, final bool, user, why string) {
+	switch st.mech {
+	case "PLAIN":
+		if idx != 1 {
+			return nil, false, false, "", "PLAIN: unexpected extra token"
+		}
+		parts := bytes.Split(token, []byte{0})
+		if len(parts) != 3 {
+			return nil, false, false, "", fmt.Sprintf("PLAIN: token has %d NUL-separated parts", len(parts))
+		}
+		authzid, authcid, passwd := string(parts[0]), string(parts[1]), string(parts[2])
+		if authcid == "" {
+			return nil, false, false, "", "PLAIN: empty authcid"
+		}
+		if authzid != "" && authzid != authcid {
+			return nil, false, false, authcid, "PLAIN: authzid differs from authcid"
+		}
+		want, known := cfg.Users[authcid]
+		if !known || want != passwd {
+			return nil, false, false, authcid, "PLAIN: invalid user name or password"
+		}
+		return []byte{}, true, true, authcid, ""
+	case "SCRAM-SHA-256", "SCRAM-SHA-512":
+		if st.scram.conv == nil {
+			cfg.newScram(st.mech, st)
+		}
+		if idx > 2 || st.scram.conv.Done() {
+			return nil, false, false, st.scram.user, "SCRAM: token after the conversation ended"
+		}
+		resp, err := st.scram.conv.Step(string(token))
+		if err != nil {
+			return nil, false, false, st.scram.user, "SCRAM: " + err.Error()
+		}
+		if idx == 2 {
+			if !st.scram.conv.Valid() {
+				return nil, false, false, st.scram.user, "SCRAM: conversation not valid"
+			}
+			return []byte(resp), true, true, st.scram.user, ""
+		}
+		return []byte(resp), true, false, st.scram.user, ""
+	}
+	return nil, false, false, "", "mechanism " + st.mech + " has no server"
+}
+
+func (cfg *SASLConfig) consult(step *SASLStep) *SASLFault {
+	if step.Raw && cfg.RawScript != nil {
+		reply, cl := cfg.RawScript(step.Index, step.Token)
+		if cl {
+			return &SASLFault{Kind: "close", Label: "rawscript-close"}
+		}
+		if reply != nil {
+			return &SASLFault{Kind: "token", Token: reply, Label: "rawscript-token"}
+		}
+	}
+	if cfg.Fault != nil {
+		return cfg.Fault(step)
+	}
+	return nil
+}
+
+func faultLabel(f *SASLFault) string {
+	if f.Label != "" {
+		return f.Label
+	}
+	if f.Kind == "error" {
+		return fmt.Sprintf("error%d", f.Code)
+	}
+	return f.Kind
+}
+
+func (cfg *SASLConfig) fail(ci *SASLConnInfo, st *connState, step int, kind string, injected bool) {
+	st.auth = AuthFailed
+	cfg.update(ci, func(ci *SASLConnInfo) {
+		ci.State = AuthFailed
+		if ci.FailedAt == 0 {
+			ci.FailedAt = core.Tick()
+			ci.FailKind = kind
+			ci.FailStep = step
+			ci.Injected = injected
+		}
+	})
+}
+
+// ---------------------------------------------------------------- linger
+
+// SASLEndConn ends the server's side of a connection the way the SASL server
+// does: with Linger a half close followed by reading (and journaling) until
+// the client closes, otherwise nothing (the caller's return closes the
+// connection). It records the failure when the connection was not
+// authenticated. Scripts may call it before returning ActDropBefore.
+func (c *Cluster) SASLEndConn(b *Broker, s *fakenet.Conn, authState, kind string) {
+	cfg := c.SASL
+	if cfg == nil {
+		return
+	}
+	ci := cfg.info(b, s)
+	if authState != AuthAuthenticated {
+		cfg.update(ci, func(ci *SASLConnInfo) {
+			if ci.FailedAt == 0 {
+				ci.FailedAt = core.Tick()
+				ci.FailKind = kind
+				ci.FailStep = ci.Steps - 1
+				if ci.State != AuthAuthenticated {
+					ci.State = AuthFailed
+				}
+			}
+		})
+	}
+	if !cfg.Linger {
+		return
+	}
+	s.Abort(fakenet.CutEOF)
+	c.linger(b, s, ci, authState)
+}
+
+func (c *Cluster) linger(b *Broker, s *fakenet.Conn, ci *SASLConnInfo, authState string) {
+	cfg := c.SASL
+	max := cfg.LingerMax
+	if max <= 0 {
+		max = 30 * time.Second
+	}
+	s.SetReadDeadline(time.Now().Add(max))
+	buf := make([]byte, 4096)
+	for {
+		n, err := s.Read(buf)
+		if n > 0 {
+			ev := &Event{Seq: core.Tick(), Broker: b.ID, ConnID: s.ID, Conn: s, API: APILinger, AuthState: authState, Wall: time.Now(),
+				Fate: FateDroppedBefore, Extra: map[string]any{"bytes": n, "head": append([]byte(nil), buf[:min(n, 64)]...)}}
+			c.mu.Lock()
+			c.journal = append(c.journal, ev)
+			c.mu.Unlock()
+			cfg.update(ci, func(ci *SASLConnInfo) { ci.LingerBytes += int64(n) })
+		}
+		if err != nil {
+			return
+		}
+		c.mu.Lock()
+		closed := c.closed
+		c.mu.Unlock()
+		if closed {
+			return
+		}
+	}
+}
+
+// SASLGate is the broker's gate for a Script: a request other than
+// ApiVersions / SaslHandshake / SaslAuthenticate on a connection that is not
+// authenticated is journaled (by handle) and the connection is ended, as
+// brokers do. Returns nil when the request may pass.
+func (c *Cluster) SASLGate(rc *ReqCtx) *Action {
+	if c.SASL == nil || rc.Ev.AuthState == "" || rc.Ev.AuthState == AuthAuthenticated {
+		return nil
+	}
+	switch rc.Ev.API {
+	case KApiVersions, KSaslHandshake, KSaslAuthenticate:
+		return nil
+	}
+	c.SASLEndConn(rc.Broker, rc.Conn, rc.Ev.AuthState, "request-before-auth")
+	return &Action{Kind: ActDropBefore}
+}
+
+// ---------------------------------------------------------------- raw mode
+
+func rawFrame(token []byte) []byte {
+	f := make([]byte, 4+len(token))
+	binary.BigEndian.PutUint32(f, uint32(len(token)))
+	copy(f[4:], token)
+	return f
+}
+
+// looksLikeRequest reports whether a raw payload is a well-formed Kafka
+// request (header and body decode strictly under the reference schemas).
+func looksLikeRequest(payload []byte) (refcodec.ReqHeader, map[string]any, bool) {
+	hdr, err := refcodec.ParseRequestHeader(payload)
+	if err != nil {
+		return hdr, nil, false
+	}
+	api := refcodec.APIs[hdr.Key]
+	if api == nil || !api.Versions.Has(hdr.Version) {
+		return hdr, nil, false
+	}
+	body, err := refcodec.DecodeBody(api, hdr.Version, true, payload[hdr.BodyOff:])
+	if err != nil {
+		return hdr, nil, false
+	}
+	return hdr, body, true
+}
+
+func (c *Cluster) saslRaw(b *Broker, s *fakenet.Conn, st *connState, payload []byte) bool {
+	cfg := c.SASL
+	ci := cfg.info(b, s)
+	ev := &Event{Seq: core.Tick(), Broker: b.ID, ConnID: s.ID, Conn: s, API: APIRawToken, AuthState: st.auth, Wall: time.Now(), ReqStart: st.reqStart,
+		Extra: map[string]any{"raw_token": true, "len": len(payload)}}
+	st.nconn++
+	c.mu.Lock()
+	c.journal = append(c.journal, ev)
+	closed := c.closed
+	c.mu.Unlock()
+	if closed {
+		return false
+	}
+	var idx int
+	cfg.update(ci, func(ci *SASLConnInfo) { ci.Steps++; idx = ci.Steps - 1 })
+	ev.Extra["step"] = idx
+
+	if st.auth != AuthHandshaken && st.auth != AuthInProgress {
+		// cannot happen: raw mode is left on completion and failure
+		ev.Fate = FateDroppedBefore
+		c.SASLEndConn(b, s, st.auth, "raw-token-in-state-"+st.auth)
+		return false
+	}
+	reply, ok, final, user, why := cfg.refToken(st, idx, payload)
+	if user != "" {
+		cfg.update(ci, func(ci *SASLConnInfo) { ci.User = user })
+	}
+	if !ok {
+		// A Kafka request where a token was expected is journaled as that
+		// request: it is something other than the exchange sent before
+		// authentication.
+		if hdr, body, isReq := looksLikeRequest(payload); isReq {
+			ev.API, ev.Version, ev.Corr, ev.Body = hdr.Key, hdr.Version, hdr.CorrelationID, body
+			if hdr.ClientID != nil {
+				ev.ClientID = *hdr.ClientID
+			}
+			ev.Extra["framed_request_in_raw_mode"] = true
+		}
+	}
+	step := &SASLStep{ConnID: s.ID, Ordinal: ci.Ordinal, Broker: b.ID, Mech: st.mech, HsVer: st.hsVer, Raw: true, Index: idx, Token: payload, Reply: reply, OK: ok, Final: final}
+	var override []byte
+	f := cfg.consult(step)
+	if f != nil && f.Accept && f.Kind == "rawbytes" && ok {
+		// the step keeps the reference verdict; only the bytes are replaced
+		override = f.Token
+		ev.Extra["fault"] = faultLabel(f)
+		cfg.update(ci, func(ci *SASLConnInfo) { ci.Injected = true })
+		f = nil
+	}
+	if f != nil {
+		label := faultLabel(f)
+		ev.Extra["fault"] = label
+		cfg.fail(ci, st, idx, label, true)
+		st.rawMode = false
+		switch f.Kind {
+		case "cut":
+			frame := rawFrame(reply)
+			k := f.CutAt
+			if k >= len(frame) {
+				k = len(frame) - 1
+			}
+			ev.RespStart = s.Sent()
+			ev.RespSeq = core.Tick()
+			s.WriteCut(frame, k, f.CutMode)
+			ev.RespEnd = ev.RespStart + int64(len(frame))
+			ev.Fate = FateAppliedCut
+		case "token", "rawbytes":
+			frame := rawFrame(f.Token)
+			if f.Kind == "rawbytes" {
+				frame = f.Token
+			}
+			ev.RespStart = s.Sent()
+			ev.RespSeq = core.Tick()
+			s.Write(frame)
+			ev.RespEnd = ev.RespStart + int64(len(frame))
+			ev.Fate = FateRejected
+			// the sabotaged answer claims success: the connection stays open
+			// and whatever follows is served by handle (state "failed")
+			return true
+		default: // close, error
+			ev.Fate = FateDroppedBefore
+		}
+		c.SASLEndConn(b, s, AuthFailed, label)
+		return false
+	}
+	if !ok {
+		ev.Fate = FateRejected
+		ev.Problem = why
+		ev.Code = 58
+		cfg.fail(ci, st, idx, "rejected: "+why, false)
+		st.rawMode = false
+		c.SASLEndConn(b, s, AuthFailed, why)
+		return false
+	}
+	if final {
+		st.auth = AuthAuthenticated
+		st.rawMode = false
+		cfg.update(ci, func(ci *SASLConnInfo) { ci.State = AuthAuthenticated; ci.AuthenticatedAt = core.Tick() })
+	} else {
+		st.auth = AuthInProgress
+		cfg.update(ci, func(ci *SASLConnInfo) { ci.State = AuthInProgress })
+	}
+	frame := rawFrame(reply)
+	if override != nil {
+		frame = override
+	}
+	ev.RespStart = s.Sent()
+	ev.RespSeq = core.Tick()
+	s.Write(frame)
+	ev.RespEnd = ev.RespStart + int64(len(frame))
+	ev.Fate = FateApplied
+	return true
+}
+
+// ---------------------------------------------------------------- framed mode
+
+// saslAPI serves SaslHandshake and SaslAuthenticate. Faulted answers are
+// written here (the function then returns nil and asks handle to end the
+// connection through Extra["close"]).
 func (c *Cluster) saslAPI(rc *ReqCtx, st *connState) map[string]any {
-	return map[string]any{"ErrorCode": int64(33), "Mechanisms": []any{}}
+	cfg := c.SASL
+	ev := rc.Ev
+	if ev.Extra == nil {
+		ev.Extra = map[string]any{}
+	}
+	mechList := func() []any {
+		var out []any
+		if cfg != nil {
+			for _, m := range cfg.mechanisms() {
+				out = append(out, m)
+			}
+		}
+		return out
+	}
+	if cfg == nil {
+		// a broker without SASL listeners
+		ev.Fate = FateRejected
+		if ev.API == KSaslHandshake {
+			ev.Code = 33
+			return map[string]any{"ErrorCode": int64(33), "Mechanisms": []any{}}
+		}
+		ev.Code = 34
+		return map[string]any{"ErrorCode": int64(34), "ErrorMessage": "SASL is not enabled", "AuthBytes": []byte{}, "SessionLifetimeMs": int64(0)}
+	}
+	ci := cfg.info(rc.Broker, rc.Conn)
+	var idx int
+	cfg.update(ci, func(ci *SASLConnInfo) { ci.Steps++; idx = ci.Steps - 1 })
+	ev.Extra["step"] = idx
+
+	// writes a (possibly cut) answer itself and ends the connection
+	writeSelf := func(resp map[string]any, f *SASLFault) map[string]any {
+		frame, _, err := refcodec.EncodeResponseFrame(rc.API, ev.Version, ev.Corr, resp)
+		if err != nil {
+			panic(fmt.Sprintf("fakecluster: cannot encode %s v%d response: %v", rc.API.Name, ev.Version, err))
+		}
+		ev.Resp = resp
+		if f != nil && f.Kind == "cut" {
+			k := f.CutAt
+			if k >= len(frame) {
+				k = len(frame) - 1
+			}
+			ev.RespStart = rc.Conn.Sent()
+			ev.RespSeq = core.Tick()
+			rc.Conn.WriteCut(frame, k, f.CutMode)
+			ev.RespEnd = ev.RespStart + int64(len(frame))
+			ev.Fate = FateAppliedCut
+		} else {
+			ev.Fate = FateDroppedBefore
+		}
+		c.SASLEndConn(rc.Broker, rc.Conn, AuthFailed, ci.FailKind)
+		ev.Extra["close"] = true
+		return nil
+	}
+
+	if ev.API == KSaslHandshake {
+		mech := refcodec.Str(rc.Body["Mechanism"])
+		legal := st.auth == AuthNone
+		ok := legal && cfg.enabled(mech)
+		if legal {
+			st.mech, st.hsVer = mech, ev.Version
+			cfg.update(ci, func(ci *SASLConnInfo) { ci.Mech, ci.HsVer, ci.Raw = mech, ev.Version, ev.Version == 0 })
+		}
+		okResp := map[string]any{"ErrorCode": int64(0), "Mechanisms": mechList()}
+		step := &SASLStep{ConnID: rc.Conn.ID, Ordinal: ci.Ordinal, Broker: rc.Broker.ID, Mech: mech, HsVer: ev.Version, Raw: ev.Version == 0, Index: idx, OK: ok}
+		if f := cfg.consult(step); f != nil {
+			label := faultLabel(f)
+			ev.Extra["fault"] = label
+			cfg.fail(ci, st, idx, label, true)
+			switch f.Kind {
+			case "error":
+				ev.Fate, ev.Code = FateRejected, f.Code
+				return map[string]any{"ErrorCode": int64(f.Code), "Mechanisms": mechList()}
+			case "cut":
+				return writeSelf(okResp, f)
+			default:
+				return writeSelf(okResp, nil)
+			}
+		}
+		if !legal {
+			ev.Fate, ev.Code = FateRejected, 34
+			cfg.fail(ci, st, idx, "handshake in state "+ev.AuthState, false)
+			return map[string]any{"ErrorCode": int64(34), "Mechanisms": mechList()}
+		}
+		if !ok {
+			ev.Fate, ev.Code = FateRejected, 33
+			cfg.fail(ci, st, idx, "unsupported-mechanism", false)
+			return map[string]any{"ErrorCode": int64(33), "Mechanisms": mechList()}
+		}
+		st.auth = AuthHandshaken
+		cfg.update(ci, func(ci *SASLConnInfo) { ci.State = AuthHandshaken })
+		if ev.Version == 0 {
+			st.rawMode = true
+		}
+		ev.Fate = FateApplied
+		return okResp
+	}
+
+	// SaslAuthenticate
+	authResp := func(code int16, msg any, token []byte) map[string]any {
+		if token == nil {
+			token = []byte{}
+		}
+		return map[string]any{"ErrorCode": int64(code), "ErrorMessage": msg, "AuthBytes": token, "SessionLifetimeMs": int64(0)}
+	}
+	token := refcodec.Bytes(rc.Body["AuthBytes"])
+	legal := (st.auth == AuthHandshaken || st.auth == AuthInProgress) && st.hsVer >= 1
+	var reply []byte
+	var ok, final bool
+	var user, why string
+	if legal {
+		reply, ok, final, user, why = cfg.refToken(st, idx, token)
+		if user != "" {
+			cfg.update(ci, func(ci *SASLConnInfo) { ci.User = user })
+		}
+	} else {
+		why = "SaslAuthenticate in state " + ev.AuthState
+	}
+	step := &SASLStep{ConnID: rc.Conn.ID, Ordinal: ci.Ordinal, Broker: rc.Broker.ID, Mech: st.mech, HsVer: st.hsVer, Index: idx, Token: token, Reply: reply, OK: ok, Final: final}
+	if f := cfg.consult(step); f != nil {
+		label := faultLabel(f)
+		ev.Extra["fault"] = label
+		cfg.fail(ci, st, idx, label, true)
+		switch f.Kind {
+		case "error":
+			ev.Fate, ev.Code = FateRejected, f.Code
+			var tk []byte
+			if f.KeepBytes {
+				tk = reply
+			}
+			return authResp(f.Code, "injected failure", tk)
+		case "token":
+			ev.Fate = FateRejected
+			return authResp(0, nil, f.Token)
+		case "cut":
+			return writeSelf(authResp(0, nil, reply), f)
+		default:
+			return writeSelf(authResp(0, nil, reply), nil)
+		}
+	}
+	if !legal {
+		ev.Fate, ev.Code = FateRejected, 34
+		ev.Problem = why
+		cfg.fail(ci, st, idx, why, false)
+		return authResp(34, why, nil)
+	}
+	if !ok {
+		ev.Fate, ev.Code = FateRejected, 58
+		ev.Problem = why
+		cfg.fail(ci, st, idx, "rejected: "+why, false)
+		return authResp(58, "Authentication failed", nil)
+	}
+	if final {
+		st.auth = AuthAuthenticated
+		cfg.update(ci, func(ci *SASLConnInfo) { ci.State = AuthAuthenticated; ci.AuthenticatedAt = core.Tick() })
+	} else {
+		st.auth = AuthInProgress
+		cfg.update(ci, func(ci *SASLConnInfo) { ci.State = AuthInProgress })
+	}
+	ev.Fate = FateApplied
+	return authResp(0, nil, reply)
+}
+
+// SASLConnOrdinal registers the connection of a request with the SASL server
+// (if it is not yet) and returns its ordinal.
+func (c *Cluster) SASLConnOrdinal(rc *ReqCtx) int {
+	if c.SASL == nil {
+		return 0
+	}
+	return c.SASL.info(rc.Broker, rc.Conn).Ordinal
+}
+
+// SASLSabotageApiVersions is for Scripts: it fails the ApiVersions request
+// that precedes the exchange ("close": no answer; "cut": the answer cut at
+// CutAt bytes) and ends the connection like the SASL server does.
+func (c *Cluster) SASLSabotageApiVersions(rc *ReqCtx, f *SASLFault) *Action {
+	cfg := c.SASL
+	ci := cfg.info(rc.Broker, rc.Conn)
+	label := faultLabel(f)
+	cfg.update(ci, func(ci *SASLConnInfo) {
+		if ci.FailedAt == 0 {
+			ci.FailedAt = core.Tick()
+			ci.FailKind = label
+			ci.FailStep = -1
+			ci.Injected = true
+			ci.State = AuthFailed
+		}
+	})
+	if rc.Ev.Extra == nil {
+		rc.Ev.Extra = map[string]any{}
+	}
+	rc.Ev.Extra["fault"] = label
+	if f.Kind == "cut" {
+		resp := c.apiVersionsResponse(rc, &connState{versions: rc.Broker.Versions})
+		frame, _, err := refcodec.EncodeResponseFrame(rc.API, rc.Ev.Version, rc.Ev.Corr, resp)
+		if err != nil {
+			panic(fmt.Sprintf("fakecluster: cannot encode ApiVersions v%d response: %v", rc.Ev.Version, err))
+		}
+		k := f.CutAt
+		if k >= len(frame) {
+			k = len(frame) - 1
+		}
+		rc.Ev.RespStart = rc.Conn.Sent()
+		rc.Ev.RespSeq = core.Tick()
+		rc.Conn.WriteCut(frame, k, f.CutMode)
+		rc.Ev.RespEnd = rc.Ev.RespStart + int64(len(frame))
+	}
+	c.SASLEndConn(rc.Broker, rc.Conn, AuthFailed, label)
+	return &Action{Kind: ActDropBefore}
 }
